@@ -256,6 +256,17 @@ def check_program_end(ctx, rule, cr):
     avoid = {pushes[0].bb} | {c.bb for c in hsa}
     avoid |= _flag_blocks_leading_to(f, pushes[0].bb, lk[0].bb)
     skipped_blind = lk[0].bb in f.reach_set(0, avoid=avoid)
+    h = cr.need_fn("mach::link::Link::has_symbol_at")
+    fam = [h] + list(cr.closures_of(h.path))
+    its = [c.name for g in fam for c in g.calls() if "BTreeMap" in c.name or "btree" in c.name]
+    whole = [n for n in its if re.search(r"BTreeMap::<K, V, A>::(values|iter)$", n)]
+    part = [n for n in its if re.search(r"::(range|range_mut|split_off|first_key_value|"
+                                        r"last_key_value|get)$", n)]
+    ctx.check(bool(whole) and not part, rule, "has_symbol_at/whole-table", h.span,
+              "scans every symbol: line symbols and local labels",
+              "has_symbol_at no longer looks at the whole symbol table (%s): a last line that "
+              "emits no code (REM, DATA) has its line symbol past the final End, and a branch to "
+              "it would run into the direct line's code" % sorted(set(part) or set(its)))
     ctx.check(bool(hsa) and not skipped_blind, rule, "Program::link/no-label-past-last-End",
               pushes[0].span,
               "the End is only omitted after checking that no label points past the last opcode",
